@@ -726,31 +726,58 @@ def tie_spelling(run, work):
         gen = os.path.join(os.path.dirname(exe), "gen")
         r["ssa"] = sorted(f for f in os.listdir(gen) if f.endswith(".ssa") and f.startswith("p_")) if os.path.isdir(gen) else []
         return r
+    rejected = []; twice = []
     for (tag, imps), r in zip(jobs, common.pmap(one, jobs, workers=4)):
         run.count("spelling/" + tag)
         run.case(("spelling", tag), nontrivial=True)
         rp = dict(files=r["files"], project_dir_name="p", entry="p/main.fer", how="ferret -keep-gen -o prog p/main.fer && ./prog ; ls gen",
                   spelling=imps)
         want = str(110 * len(imps))
+        if tag == "canonical":
+            if r["rc"] != 0 or (r.get("run") or (None, ""))[1].strip() != want or len(r["ssa"]) != 3:
+                viol += 1
+                report(run, "spelling:canonical", "the canonical three-module chain no longer builds/prints %s" % want, dict(rp, output=r["out"][-1200:]))
+            continue
         if r["rc"] != 0:
             msg = [l for l in r["out"].splitlines() if "error" in l.lower()]
-            viol += 1
-            report(run, "spelling:%s:rejected" % tag, "acyclic project whose import path is spelt %r fails to compile: %s" %
-                   (imps[-1], (msg[0].strip() if msg else r["out"].strip()[:120])), dict(rp, output=r["out"][-1200:]))
+            rejected.append((tag, imps[-1], (msg[0].strip() if msg else r["out"].strip()[:120]), rp))
             continue
         got = r.get("run") or (None, "", "")
         if got[0] != 0 or got[1].strip() != want:
             viol += 1
             report(run, "spelling:%s:wrong-output" % tag, "project with import spelt %r printed %r, expected %s" % (imps[-1], got[1].strip()[:40], want), rp)
             continue
-        if r["ssa"] != ["p_m1.ssa", "p_m2.ssa", "p_main.ssa"]:
-            viol += 1
-            report(run, "spelling:%s:processed-twice" % tag,
-                   "module file m1.fer imported as %r is processed as more than one module (units %r): 'every module processed "
-                   "exactly once' fails when one file is reachable under two spellings" % (imps, r["ssa"]), dict(rp, units=r["ssa"]))
+        if len(r["ssa"]) != 3:
+            twice.append((tag, imps, r["ssa"], rp))
+    # one root cause each: (a) parse.go normalises the path (fs.NormalizePath) but the resolver looks the raw string up;
+    # (b) NormalizePath leaves '.'/'..' segments, so one file reached under two spellings is two modules
+    if rejected:
+        viol += 1
+        tag, sp, msg, rp = rejected[0]
+        report(run, "spelling:noncanonical:rejected",
+               "acyclic project fails to compile when an import path is spelt non-canonically (%s): %s" %
+               (", ".join(repr(x[1]) for x in rejected), msg), dict(rp, variants=[x[1] for x in rejected]))
+    if twice:
+        viol += 1
+        tag, imps, ssa, rp = twice[0]
+        report(run, "spelling:two-spellings:processed-twice",
+               "module file m1.fer imported as %r is processed as two modules (units %r): 'every module processed exactly once' "
+               "fails when one file is reachable under two spellings" % (imps, ssa), dict(rp, units=ssa))
     return viol
 
 # ------------------------------------------------------------------ main
+
+def proof_stage(run):
+    """run.proof, retried when common.grep_gate trips over another check's transient coq/gen/cases_*.v file"""
+    import time
+    for attempt in range(5):
+        snap = (list(run.theorems), run.obligations)
+        try:
+            return run.proof("Props/C15.v")
+        except FileNotFoundError:
+            run.theorems, run.obligations = snap
+            time.sleep(1 + attempt)
+    return run.proof("Props/C15.v")
 
 def setup():
     common.build_hook("depgraph")
@@ -773,18 +800,24 @@ def main(run):
                        "pipeline level (exactly-once scheduling, visibility of symbols) is tied by exhaustive/seeded compilation, not by proof",
                        "only modules reachable from the entry file are part of the project"]
     run.extra["gates"] = []
-    ok = run.proof("Props/C15.v")
+    import time
+    T = [time.time()]; stage = {}
+    def lap(name):
+        T.append(time.time()); stage[name] = round(T[-1] - T[-2], 1); run.extra["stage_s"] = stage
+    common.impl(); lap("build")
+    ok = proof_stage(run); lap("proof")
     viol = 0
     # ---- tie (i)
     cases = exhaustive_small(run.rng)
     nmax = 8 if thorough else 6
-    for _ in range(12000 if thorough else 900):
+    for _ in range(12000 if thorough else 600):
         cases.append(gen_case(run.rng, nmax))
     for i, c in enumerate(cases): c["id"] = i
     v1, good, err = tie_seq(run, cases)
     # ---- tie (ii)
     v2, allcc, info, deferred = tie_conc(run, gen_conc(run.rng, 60 if thorough else 24), 3000 if thorough else 400)
-    bad, sbad, cbad = coq_all(good, allcc)
+    lap("hook depgraph seq+conc")
+    bad, sbad, cbad = coq_all(good, allcc); lap("coq vm_compute of the port on all cases")
     viol += judge_seq(run, good, bad, sbad, err, v1) + v2
     # concurrent-mode failures: a race shows up only here; a sequential root cause has been reported above already
     for (k, what, rp) in deferred:
@@ -795,8 +828,8 @@ def main(run):
         viol += judge_conc(run, cbad, info)
     run.extra["conc_model_unexplained_outcomes"] = len(cbad)
     # ---- tie (iii)
-    viol += tie_pipeline(run, work, run.rng, thorough)
-    tie_spelling(run, work)
+    viol += tie_pipeline(run, work, run.rng, thorough); lap("pipeline projects")
+    tie_spelling(run, work); lap("spelling probes")
     run.extra["gates"] = ["generators write canonical import paths only (project/name, no '.', '..', doubled or trailing slashes); "
                           "non-canonical spellings are probed by the dedicated `spelling` stage"]
     if not ok and not run.violations:
